@@ -876,6 +876,10 @@ func (t *tokenizer) skipCommentsHandler() (bool, error) {
 	case '/':
 		return true, t.skipSingleLineComment()
 	case '*':
+		// The '*' opens the comment; it cannot also be the first half of the closing '*/'.
+		if _, err := t.read(); err != nil {
+			return false, err
+		}
 		return true, t.skipBlockComment()
 	default:
 		return false, nil
